@@ -184,9 +184,21 @@ def run_spec(spec, rec=None):
     def fail(rel, bucket, exp, act, extra=None):
         fails.append({'case': spec, 'expected': exp, 'actual': act, 'relation': rel, 'bucket': bucket, 'extra': extra})
     try:
-        def tr(entry=None):
+        def tr(entry=None, style=0):
             def go():
-                src = wbk.translate_path(path, entry)
+                if entry is None:
+                    src = wbk.translate_path(path, entry)
+                else:
+                    # the entry Cell as callers hand it over: fresh, with a left-over value, or the very object a query returned
+                    cell = wbk.Cell(*entry)
+                    if style == 1:
+                        cell = wbk.Cell(*entry, value=0)
+                    elif style == 2 and whole[0] == 'value':
+                        cell = whole[1].executor().get_cell(wbk.Cell(*entry))
+                    p_ = wbk.Parser().set_excel_file_path(path)
+                    p_.disable_safety_check()
+                    p_.set_entrypoint_cell(cell)
+                    src = p_.get_translation()
                 return wbk.Tr(src, wbk.load_source(src))
             return wbk.outcome(go)
         whole = tr()
@@ -215,7 +227,7 @@ def run_spec(spec, rec=None):
             n = nodes[e]
             r_e = reach(edges, e)
             entry = (TITLES[n['s']], L(n['c']), str(n['r'])) if e % 2 else (n['s'], n['c'] - 1, n['r'] - 1)
-            o = tr(entry)
+            o = tr(entry, e % 3)
             reaches_cycle = cyclic and bool((r_e | {e}) & on_cycle)
             freach = [j for j in r_e if nodes[j].get('f')]
             has_special = any(nodes[j]['s'] != n['s'] for j in r_e) or any('area' in (nodes[j].get('f') or {}) for j in r_e | {e})
@@ -224,7 +236,7 @@ def run_spec(spec, rec=None):
             if rec:
                 rec.case({'spec': spec, 'entry': e}, nt, ['cyclic' if cyclic else 'acyclic', f'reach:{min(len(freach), 6)}' + ('+' if len(freach) >= 6 else ''),
                                                           'cross-sheet' if any(nodes[j]['s'] != n['s'] for j in r_e) else 'one-sheet',
-                                                          'entry:' + ('a1' if e % 2 else 'numeric')] +
+                                                          'entry:' + ('a1' if e % 2 else 'numeric'), 'entry-cell:' + ['fresh', 'with-value', 'queried'][e % 3]] +
                          sorted({'edge:' + nodes[j]['f']['k'] for j in (r_e | {e}) if nodes[j].get('f')}) +
                          ([f'cycle:{spec["cyclic"]}', 'reaches-cycle' if reaches_cycle else 'avoids-cycle'] if cyclic else []),
                          sample={'workbook': model, 'entry': list(entry), 'reachable_cells': sorted(f"{TITLES[nodes[j]['s']]}!{wbk.a1(nodes[j]['c'], nodes[j]['r'])}" for j in r_e)[:12]})
